@@ -125,9 +125,16 @@ def make_network_class():
     return ScheduledNetwork
 
 
+PATHS = ["index", "name", "dotted", "sub", "member", "getvar", "getvar_name", "values"]
+
+
 def get_var(sdo, od_entry, path):
     index, sub, name, parent_name, top = od_entry
     if top:
+        if path in ("getvar", "values"):
+            return sdo.get_variable(index)
+        if path == "getvar_name":
+            return sdo.get_variable(name)
         return sdo[index] if path in ("index", "sub", "member") else sdo[name]
     if path == "index" or path == "sub":
         return sdo[index][sub]
@@ -135,6 +142,19 @@ def get_var(sdo, od_entry, path):
         return sdo[index][name]
     if path == "name":
         return sdo[parent_name][name]
+    if path == "getvar":
+        return sdo.get_variable(index, sub)
+    if path == "getvar_name":
+        return sdo.get_variable(parent_name, sub)
+    if path == "values":
+        # Mapping protocol of SdoRecord (arrays would need the element count from the device first)
+        obj = sdo.get(index)
+        if type(obj).__name__ == "SdoRecord":
+            for s, v in obj.items():
+                if s == sub:
+                    return v
+            raise KeyError(f"sub-index {sub} not among the items() of {index:#x}")
+        return obj.get(sub)
     return sdo[f"{parent_name}.{name}"]
 
 
@@ -562,7 +582,7 @@ def case_strategy(draw, modes):
         for _ in range(draw(st.integers(1, 6 if mode != "inline" else 10))):
             e = draw(st.integers(0, min(1, len(ent) - 1) if shared else len(ent) - 1))
             dt = ent[e][5]
-            ops.append({"e": e, "path": draw(st.sampled_from(["index", "name", "dotted", "sub", "member"])),
+            ops.append({"e": e, "path": draw(st.sampled_from(PATHS)),
                         "v": draw(value_strategy(dt))})
             if mode == "inline" and draw(st.integers(0, 4)) == 0:
                 ops[-1]["stale"] = draw(st.integers(1, 3))
@@ -619,7 +639,7 @@ def _some_value(dt, i):
 def enum_cases(thorough):
     od = typed_od()
     ent = flat_entries(od)
-    paths = ["index", "name", "dotted", "sub", "member"]
+    paths = PATHS
     # boundaries of every type, through every access path
     for e, en in enumerate(ent):
         dt = en[5]
